@@ -1,8 +1,10 @@
-// Package c08 drives the real etcd membership fold (Provider._keepWatching ->
-// handleWatchResponse -> updateNodesWithChanges -> publishClusterTopologyEvent, reached through
-// the verif-tagged exports VerifNewProvider / VerifFeed) on generated watch responses, hands
-// every published member list to the real app.Cluster (ClusterServices.MakeMembers) and asks
-// the real getters.  Reader atomicity is measured (not proved) by a stress run.
+// Package c08 drives the real etcd provider (StartMember / StartClient, the watch loop with
+// handleWatchResponse -> updateNodesWithChanges -> publishClusterTopologyEvent, the keep-alive loop,
+// listAgain, Shutdown) on an injected etcd client (fake.go; hook VerifNewProviderWithClient), hands
+// every published member list to the real app.Cluster (ClusterServices.MakeMembers) and asks the
+// real getters.  Ordinary lives (OStart ...) are fed generated watch responses; scripted lives
+// (OBoot, boot.go) run on a key space with revisions under an explicit schedule of every request
+// and response.  Reader atomicity is measured (not proved) by a stress run.
 package c08
 
 import (
